@@ -99,6 +99,18 @@ func descr(v ssa.Value, depth int) string {
 		return descr(x.X, depth+1) + "[" + descr(x.Index, depth+1) + "]"
 	case *ssa.Index:
 		return descr(x.X, depth+1) + "[" + descr(x.Index, depth+1) + "]"
+	case *ssa.Slice:
+		lo, hi := "", ""
+		if x.Low != nil {
+			lo = descr(x.Low, depth+1)
+		}
+		if x.High != nil {
+			hi = descr(x.High, depth+1)
+		}
+		if lo == "" && hi == "" {
+			return descr(x.X, depth+1)
+		}
+		return descr(x.X, depth+1) + "[" + lo + ":" + hi + "]"
 	case *ssa.Lookup:
 		return descr(x.X, depth+1) + "[" + descr(x.Index, depth+1) + "]"
 	case *ssa.Extract:
@@ -166,6 +178,7 @@ type affPath struct {
 	endHead, endPred *ssa.BasicBlock
 	notes            map[string][]aff    // rule-specific bags, filled by affEval.hook
 	strs             map[string][]string // rule-specific bags
+	bools            map[ssa.Value]bool  // boolean phis whose value is known on this path
 }
 
 func (p *affPath) clone() *affPath {
@@ -191,6 +204,12 @@ func (p *affPath) clone() *affPath {
 		q.strs = map[string][]string{}
 		for k, v := range p.strs {
 			q.strs[k] = append([]string(nil), v...)
+		}
+	}
+	if p.bools != nil {
+		q.bools = map[ssa.Value]bool{}
+		for k, v := range p.bools {
+			q.bools[k] = v
 		}
 	}
 	return q
@@ -399,6 +418,29 @@ func (e *affEval) walk(p *affPath, b *ssa.BasicBlock, pred *ssa.BasicBlock, visi
 		for k, v := range newv {
 			p.val[k] = v
 		}
+		// boolean phis: the value that flowed in, when it is a constant (value form of `a && b`)
+		for _, ins := range b.Instrs {
+			phi, ok := ins.(*ssa.Phi)
+			if !ok {
+				break
+			}
+			if idx < 0 || idx >= len(phi.Edges) {
+				continue
+			}
+			if bt, ok := phi.Type().Underlying().(*types.Basic); !ok || bt.Kind() != types.Bool {
+				continue
+			}
+			if p.bools == nil {
+				p.bools = map[ssa.Value]bool{}
+			}
+			if bv, isC := constBool(phi.Edges[idx]); isC {
+				p.bools[phi] = bv
+			} else if bv, known := p.bools[phi.Edges[idx]]; known {
+				p.bools[phi] = bv
+			} else {
+				delete(p.bools, phi)
+			}
+		}
 	}
 	for _, ins := range b.Instrs {
 		if _, ok := ins.(*ssa.Phi); ok {
@@ -415,6 +457,11 @@ func (e *affEval) walk(p *affPath, b *ssa.BasicBlock, pred *ssa.BasicBlock, visi
 		}
 	}
 	for si, succ := range b.Succs {
+		if iff, ok := b.Instrs[len(b.Instrs)-1].(*ssa.If); ok {
+			if bv, known := p.bools[iff.Cond]; known && bv != (si == 0) {
+				continue // the condition is a boolean whose value is known on this path
+			}
+		}
 		q := p
 		if len(b.Succs) > 1 {
 			q = p.clone()
